@@ -535,7 +535,11 @@ def run(ck):
             ck.obligation("theorem " + t, False, "constants translator failed")
         return
     if not ck.coq_props():
-        return
+        # a proof or a constant no longer fits the source: the models may still build, and a concrete failing input is worth more
+        # than the broken proof alone
+        ok, out = ck.coq_make(["model/LokiJson.vo"])
+        if not ok:
+            return
     if not ck.quick():
         ck.coqchk(["Qryn.props.C03"])
     if not ck.go_build("decode"):
